@@ -36,6 +36,8 @@ pub struct AuditLog {
     pub action_views: Vec<FactDump>,
     /// parent address seen by each `call_action`
     pub action_parents: Vec<Option<Address>>,
+    /// rich views (all exact/prefix queries) recorded at the start of each `call_action`
+    pub rich_views: Vec<Vec<(String, String)>>,
     pub merge_calls: u64,
 }
 
@@ -57,6 +59,8 @@ pub struct ActionScript {
     pub fail_after: Option<(usize, u8)>,
     /// Writes performed directly by the action before publishing (sessions use this).
     pub direct: Vec<Op>,
+    /// record a rich view (every exact and prefix query) at the start
+    pub probe: bool,
 }
 
 pub struct AuditPolicy {
@@ -114,7 +118,7 @@ fn kv_key(k: u8) -> Keys {
 /// Sorted dump of every fact of the names the AuditPolicy uses.
 pub fn dump_facts(q: &impl aranya_runtime::Query) -> Result<FactDump, aranya_runtime::StorageError> {
     let mut out = Vec::new();
-    for name in ["kv", "seq"] {
+    for name in ["kk", "kv", "seq"] {
         for f in q.query_prefix(name, &[])? {
             let f = f?;
             out.push((name.to_string(), f.key.iter().map(|k| k.to_vec()).collect(), f.value.to_vec()));
@@ -179,9 +183,38 @@ pub fn run_prog(
                 return Err(fail_kind(kind));
             }
             Op::Emit(e) => sink.consume(format!("{name}:{e}")),
+            Op::PutK(k, v) => {
+                let key = Keys::from_iter(crate::dag::key_alpha()[k as usize].iter().map(|c| c.clone().into_boxed_slice()));
+                facts.insert("kk".into(), key, vec![v].into()).map_err(|_| PolicyError::Write)?;
+            }
+            Op::DelK(k) => {
+                let key = Keys::from_iter(crate::dag::key_alpha()[k as usize].iter().map(|c| c.clone().into_boxed_slice()));
+                facts.delete("kk".into(), key).map_err(|_| PolicyError::Write)?;
+            }
         }
     }
     Ok(())
+}
+
+/// Every exact and prefix query over the `kk` key alphabet, plus the plain dump: what a policy can observe.
+pub fn rich_view(q: &impl aranya_runtime::Query) -> Result<Vec<(String, String)>, aranya_runtime::StorageError> {
+    let mut out = Vec::new();
+    for (n, k, v) in dump_facts(q)? {
+        out.push((format!("dump {n}{k:?}"), format!("{v:?}")));
+    }
+    let alpha = crate::dag::key_alpha();
+    for (i, key) in alpha.iter().enumerate() {
+        let keys: Vec<Box<[u8]>> = key.iter().map(|c| c.clone().into_boxed_slice()).collect();
+        let exact = q.query("kk", &keys)?;
+        out.push((format!("query kk#{i}"), format!("{:?}", exact.map(|b| b.to_vec()))));
+        let mut res = Vec::new();
+        for f in q.query_prefix("kk", &keys)? {
+            let f = f?;
+            res.push((f.key.iter().map(|k| k.to_vec()).collect::<Vec<_>>(), f.value.to_vec()));
+        }
+        out.push((format!("prefix kk#{i}"), format!("{res:?}")));
+    }
+    Ok(out)
 }
 
 impl Policy for AuditPolicy {
@@ -226,6 +259,10 @@ impl Policy for AuditPolicy {
         placement: ActionPlacement,
     ) -> Result<(), PolicyError> {
         let view = dump_facts(facts).map_err(|_| PolicyError::Read)?;
+        if action.probe {
+            let rv = rich_view(facts).map_err(|_| PolicyError::Read)?;
+            self.log.borrow_mut().rich_views.push(rv);
+        }
         let parent0 = match facts.head_address()? {
             Prior::None => None,
             Prior::Single(a) => Some(a),
@@ -281,7 +318,10 @@ impl Policy for AuditPolicy {
             };
             self.call_rule(&cmd, facts, sink, cp)?;
             facts.add_command(&cmd).map_err(|_| PolicyError::Write)?;
-            parent = Some(Address { id: cmd.id, max_cut });
+            if matches!(placement, ActionPlacement::OnGraph) {
+                // session commands all name the same fake parent
+                parent = Some(Address { id: cmd.id, max_cut });
+            }
         }
         if let Some((after, kind)) = action.fail_after {
             if after >= action.publish.len() {
